@@ -5,6 +5,7 @@
 // overlay, and run under the controlled scheduler over a scripted database/sql driver.  A consumer behaves the way
 // reader/service/queryRangeService.go does (drains until the channel closes; stops at the first error entry); the
 // environment may fail a row, and the client may go away (context cancelled) at any moment.
+// The database may also return a row far outside the requested window (a panic inside an aggregation stage).
 //
 // Oracle (every execution): no deadlock, and at the end every goroutine started for the request has finished — a
 // thread parked forever on a channel operation is a leaked goroutine; the consumer saw the channel close or an
@@ -55,6 +56,9 @@ var (
 	curMu   sync.Mutex
 	curRows []rowSpec
 	curMat  bool
+	// curRogue: the scenario's query has a range aggregation (the stages that index buckets by timestamp); only
+	// there the out-of-window row is offered as an environment choice, to keep the quick tier inside its budget
+	curRogue bool
 )
 
 func (drv) Open(string) (driver.Conn, error) { return &conn{}, nil }
@@ -90,6 +94,12 @@ func (r *rows) Next(dest []driver.Value) error {
 		return fmt.Errorf("injected: connection lost at row %d", r.i)
 	}
 	x := r.rs[r.i]
+	// a disobedient database: the middle row lies far outside the window the statement asked for (the in-process
+	// aggregators index their buckets with it: a panic inside a stage, which must end in an error entry and a closed
+	// channel on every schedule)
+	if curRogue && r.i == len(r.rs)/2 && sched.Choose("row-out-of-window", 2, true) == 1 {
+		x.ts += int64(1e15)
+	}
 	r.i++
 	dest[0] = x.fp
 	dest[1] = x.labels
@@ -120,12 +130,12 @@ func (f *fakeDB) Close()                                                   {}
 // ---------------------------------------------------------------------------------------------------
 
 type cfg struct {
-	Query   string
-	Rows    int   // rows returned by the database (101 and 201 make the scanner send 2 and 3 messages)
-	Limit   int64
-	StepMs  int64
-	Cancel  bool // a "client goes away" thread cancels the request context at an arbitrary moment
-	Series  int
+	Query  string
+	Rows   int // rows returned by the database (101 and 201 make the scanner send 2 and 3 messages)
+	Limit  int64
+	StepMs int64
+	Cancel bool // a "client goes away" thread cancels the request context at an arbitrary moment
+	Series int
 }
 
 func (c cfg) Name() string {
@@ -140,12 +150,12 @@ type scenario struct {
 func (s *scenario) Name() string { return s.c.Name() }
 
 type obs struct {
-	planErr   error
-	procErr   error
-	messages  int
-	entries   int
-	sawErr    string
-	closed    bool
+	planErr      error
+	procErr      error
+	messages     int
+	entries      int
+	sawErr       string
+	closed       bool
 	consumerDone bool
 }
 
@@ -174,7 +184,7 @@ func (s *scenario) Run() any {
 		rs[i] = rowSpec{fp: uint64(100 + ser), labels: map[string]string{"a": "b", "s": fmt.Sprint(ser)},
 			msg: fmt.Sprintf(`{"x":"%d","lvl":"e"} k=v n=%d`, i%3, i), val: float64(i%5 + 1), ts: base + int64(i%7)*1e9}
 	}
-	curRows, curMat = rs, matrix
+	curRows, curMat, curRogue = rs, matrix, strings.Contains(c.Query, "[")
 	ctx, cancel := vctx.WithCancel(context.Background())
 	pctx := tables.PopulateTableNames(&shared.PlannerContext{
 		From: time.Unix(1700000000, 0), To: time.Unix(1700000010, 0), Limit: c.Limit, Ctx: ctx, CancelCtx: cancel,
@@ -319,7 +329,7 @@ func main() {
 	}
 	part := os.Getenv("VERIF_PART")
 	r := ev.StartPart("C12", part, "model_checking", 40*time.Second, 12*time.Minute)
-	r.Rule = "C12b: stateless DFS (engine E1, delay-bounded) over schedules x {database fails at the middle row, client goes away at any moment} of the real LogQL processor chain per scenario (query x result-set size x limit x cancel thread); distinct = observed outcome classes"
+	r.Rule = "C12b: stateless DFS (engine E1, delay-bounded) over schedules x {database fails at the middle row, database returns the middle row far outside the window (stage panic), client goes away at any moment} of the real LogQL processor chain per scenario (query x result-set size x limit x cancel thread); distinct = observed outcome classes"
 	r.Assumptions = append(r.Assumptions, "C12b: the request context is not passed to database/sql (its watcher goroutine is outside the scheduler); cancellation reaches the code through ctx.Ctx.Done()")
 	if r.Replay != "" {
 		replay(r)
